@@ -287,8 +287,8 @@ def _c09_specs(tier):
                     # a decoder that starts life without a grammar, and non-default search options
                     ('c09-boot-nogram-len4', ['--set', 'boot', '--len', '4', '--nogram', '1'], 8),
                     ('c09-nofiller-core-len2', ['--set', 'core', '--len', '2', '--cfg', 'fsgusefiller=no'], 2),
-                    ('c09-nofiller-lat-len4', ['--set', 'lat', '--len', '4', '--cfg', 'fsgusefiller=no'], 4),
-                    ('c09-noalt-nobestpath-lat-len4', ['--set', 'lat', '--len', '4', '--cfg', 'fsgusealtpron=no,bestpath=no'], 4),
+                    ('c09-nofiller-lat-len4', ['--set', 'lat', '--len', '4', '--cfg', 'fsgusefiller=no'], 8),
+                    ('c09-noalt-nobestpath-lat-len4', ['--set', 'lat', '--len', '4', '--cfg', 'fsgusealtpron=no,bestpath=no'], 8),
                     ('c09-noalt-nobestpath-core-len2', ['--set', 'core', '--len', '2', '--cfg', 'fsgusealtpron=no,bestpath=no'], 2)]
     return [('c09-all-len3', ['--set', 'all', '--len', '3']), ('c09-core-len4', ['--set', 'core', '--len', '4']),
             ('c09-proto-len6', ['--set', 'proto', '--len', '6']), ('c09-two-core-len3', ['--set', 'core', '--len', '3', '--two', '1'])] + [
@@ -440,7 +440,7 @@ def _c18_runs(tier):
     return r
 
 
-SES_ASSUME = ['operation alphabet of 46 public-API calls (see harness/mc_session.c); audio = excerpts of tests/data/goforward.raw, zeros, and no samples; '
+SES_ASSUME = ['operation alphabet of 47 public-API calls (see harness/mc_session.c); audio = excerpts of tests/data/goforward.raw, zeros, and no samples; '
               'REAL front end and REAL acoustic scorer (no injected scores)',
               'grammar loading, dictionary additions and reinit are only issued between utterances (the documented protocol); every other call is issued in every state',
               'small dictionary (9 words) on model en-us; each history runs in a child forked from one initialised decoder',
@@ -525,7 +525,7 @@ CHECKS = {
         runs={'quick': _ses_runs('C08', _c08_specs('quick')), 'thorough': _ses_runs('C08', _c08_specs('thorough'))},
         budget_s={'quick': 600, 'thorough': 5400},
         coverage=ex_cov,
-        rule='every API history up to length 1 over all 46 operations, 2 over the 18-operation core, 4 over the 7-operation protocol core, 3 '
+        rule='every API history up to length 1 over all 47 operations, 2 over the 18-operation core, 4 over the 7-operation protocol core, 3 '
              'over the boot set from a grammar-less decoder (thorough: 2-3 / 3 / 4), also on synthetic scorers, with a cap on active HMMs '
              '(maxhmmpf 3/5/10) and without filler transitions; followed by a probe in TWO orders, each on its own copy of the process '
              '(fork) and compared with the same order on a fresh decoder: (1) whole-utterance decodes first, WITHOUT any reset (an excerpt '
@@ -542,7 +542,7 @@ CHECKS = {
         runs={'quick': _ses_runs('C09', _c09_specs('quick')), 'thorough': _ses_runs('C09', _c09_specs('thorough'))},
         budget_s={'quick': 600, 'thorough': 5400},
         coverage=ex_cov,
-        rule='every API history up to length 2 over all 46 operations, length 3 over the 18-operation core, length 5 over the 7-operation '
+        rule='every API history up to length 2 over all 47 operations, length 3 over the 18-operation core, length 5 over the 7-operation '
              'protocol core {start, process, end, hyp, seg, alignment, free}, length 4 over the boot set from a grammar-less decoder and over '
              'the lattice set without filler transitions / without alternates and best-path (thorough: 3/4/6/5), also on synthetic scorers, each in a forked child under ASan+UBSan with '
              'asserts on: outcome must be a normal return (no sanitizer report, assertion, exit, hang), out-of-order calls must return the '
